@@ -50,10 +50,11 @@ META = {
                 "[[sigma*1 + phi^, tau],[0,0]] (the harness builds the same matrices independently for mpmath)",
                 "IEEE rounding is not modelled: the theorems are exact identities (exact regimes) and explicit truncation bounds "
                 "(thin Taylor regimes, <= 9*eps) over the reals; the float accuracy at the property's tolerances is measured"],
-    "assumptions": ["generator bounds: rotation angle <= 4*pi, |log-scale| <= 8, finite inputs",
+    "assumptions": ["the translation scale of the tolerance, |tau|_inf * (e^sigma-1)/sigma, is the `sim3TransScale` of theorems sim3Exp_translation_relative / sim3Exp_translation_sqrt_eps (over the reals the 4*sqrt(eps) clause holds for eps <= 2^-23, |sigma| <= 8, every tau and phi)",
+                    "generator bounds: rotation angle <= 4*pi, |log-scale| <= 8, finite inputs",
                     "relative error of the rotation block is measured against 1 (unit quaternion / orthogonal matrix), of the "
                     "scale block against e^sigma, of the translation block against |tau|_inf * (e^sigma-1)/sigma"],
-    "partial": ["rounding (reduced in pass 3 to four per-call accuracies gamma_q, gamma_s, gamma_t, gamma_M that are measured on every sampled case; theorems rounded_so3Exp / rounded_sim3Exp turn them into the entrywise bound for every input): the clause 'relative error at most k*eps / k*sqrt(eps)' is decided as theorem over the reals (53 theorems: "
+    "partial": ["rounding (reduced in pass 3 to four per-call accuracies gamma_q, gamma_s, gamma_t, gamma_M that are measured on every sampled case; theorems rounded_so3Exp / rounded_sim3Exp turn them into the entrywise bound for every input): the clause 'relative error at most k*eps / k*sqrt(eps)' is decided as theorem over the reals (57 theorems: "
                 "matrix(Exp x) = exp(generator) in every exact regime of all four types, entrywise bounds <= 9*eps*e^|sigma|*(1+|tau|_1) "
                 "for every input) + measured agreement of the float code with the 192-bit model and with mpmath on the generated inputs"],
 }
